@@ -306,6 +306,9 @@ func writeEvidence(res *propResult, tier string, seed int, eng *Engine) {
 		for k := range f.havocCallee {
 			havoc[k] = true
 		}
+		for _, k := range uniq(f.noTerm) {
+			assumed["termination NOT claimed for "+k] = true
+		}
 	}
 	trusted := []string{
 		"A-ARCH: int/uint/uintptr are 64-bit",
